@@ -170,6 +170,11 @@ func (w *Worker) callFunction(fn *ssa.Function, args []Value, env []Value) (res 
 	if r, ok := w.intrinsic(fn, args); ok {
 		return r
 	}
+	if w.stubs != nil {
+		if st, ok := w.stubs[fn.String()]; ok {
+			return w.callValue(st, args)
+		}
+	}
 	if fn.Blocks == nil {
 		if r, ok := w.external(fn, args); ok {
 			return r
@@ -368,7 +373,7 @@ func (fr *frame) visit(instr ssa.Instruction) continuation {
 	case *ssa.MultiConvert:
 		fr.env[instr] = w.conv(instr.Type(), instr.X.Type(), fr.get(instr.X))
 	case *ssa.SliceToArrayPointer:
-		s := fr.get(instr.X).(SliceV)
+		s := w.concGeom(fr.get(instr.X).(SliceV))
 		n := int(deref(instr.Type()).Underlying().(*types.Array).Len())
 		l := w.concInt(s.Len, "slice to array pointer")
 		if l < n {
@@ -450,10 +455,13 @@ func (fr *frame) visit(instr ssa.Instruction) continuation {
 		if ln < 0 || cp < ln {
 			w.runtimePanic("makeslice: len out of range")
 		}
-		if cp > 1<<20 {
-			panic(unsupported("make of %d elements", cp))
-		}
 		et := instr.Type().Underlying().(*types.Slice).Elem()
+		if es := w.sizeof(et); es > 0 && (cp > (1<<48)/int(es)) {
+			w.runtimePanic("makeslice: len out of range")
+		}
+		if cp > 1<<22 {
+			panic(unsupported("make of %d elements (allocation this large is not modelled)", cp))
+		}
 		fr.env[instr] = w.newSlice(et, ln, cp)
 	case *ssa.MakeMap:
 		mt := instr.Type().Underlying().(*types.Map)
@@ -681,8 +689,8 @@ func (w *Worker) iteValue(c *Term, a, b Value) Value {
 		return r
 	case SliceV:
 		y, ok := b.(SliceV)
-		if ok && x.B == y.B && x.Off == y.Off && x.Cap == y.Cap && x.Nil == y.Nil {
-			return SliceV{B: x.B, Off: x.Off, Cap: x.Cap, Nil: x.Nil, Len: w.tt.Ite(c, x.Len, y.Len)}
+		if ok && x.B == y.B && x.Off == y.Off && x.Cap == y.Cap && x.Nil == y.Nil && x.SOff == y.SOff && x.SCap == y.SCap {
+			return SliceV{B: x.B, Off: x.Off, Cap: x.Cap, Nil: x.Nil, Len: w.tt.Ite(c, x.Len, y.Len), SOff: x.SOff, SCap: x.SCap}
 		}
 	case Ptr:
 		if y, ok := b.(Ptr); ok && x == y {
@@ -754,6 +762,18 @@ func (w *Worker) indexAddr(x Value, idx *Term, it types.Type) Value {
 	switch x := x.(type) {
 	case SliceV:
 		w.inBounds(i64, signed, x.Len)
+		if x.SOff != nil {
+			abs := w.tt.BVAdd(x.SOff, i64)
+			if abs.IsConst() {
+				i := int(abs.U)
+				return Ptr{Slot: &x.B.Cells[i], B: x.B, Idx: i}
+			}
+			if len(x.B.Cells) > 0 && !isScalarVal(x.B.Cells[0]) {
+				i := w.concInt(abs, "index of non-scalar element")
+				return Ptr{Slot: &x.B.Cells[i], B: x.B, Idx: i}
+			}
+			return Ptr{Sym: &SymRef{B: x.B, Lo: 0, Hi: len(x.B.Cells), Idx: abs}}
+		}
 		if i64.IsConst() {
 			i := int(i64.U) + x.Off
 			return Ptr{Slot: &x.B.Cells[i], B: x.B, Idx: i}
@@ -873,6 +893,10 @@ func (w *Worker) sliceOp(instr *ssa.Slice, x, lo, hi, max Value) Value {
 		return StrV{S: x.S[l:h]}
 	case SliceV:
 		capT := tt.BV(64, uint64(x.Cap))
+		offT := tt.BV(64, uint64(x.Off))
+		if x.SOff != nil {
+			capT, offT = x.SCap, x.SOff
+		}
 		if hiT == nil {
 			hiT = x.Len
 		}
@@ -880,12 +904,22 @@ func (w *Worker) sliceOp(instr *ssa.Slice, x, lo, hi, max Value) Value {
 			maxT = capT
 		}
 		check(tt.And(tt.BVSle(tt.BV(64, 0), loT), tt.BVSle(loT, hiT), tt.BVSle(hiT, maxT), tt.BVSle(maxT, capT)))
-		l := w.concInt(loT, "slice low bound")
-		m := w.concInt(maxT, "slice max bound")
 		if x.Nil {
 			return x
 		}
-		return SliceV{B: x.B, Off: x.Off + l, Len: tt.BVSub(hiT, tt.BV(64, uint64(l))), Cap: m - l}
+		nOff := tt.BVAdd(offT, loT)
+		nCap := tt.BVSub(maxT, loT)
+		nLen := tt.BVSub(hiT, loT)
+		if nOff.IsConst() && nCap.IsConst() {
+			return SliceV{B: x.B, Off: int(nOff.U), Len: nLen, Cap: int(nCap.U)}
+		}
+		if !w.cfg.SymSlices {
+			l := w.concInt(loT, "slice low bound")
+			m := w.concInt(maxT, "slice max bound")
+			o := w.concInt(offT, "slice offset")
+			return SliceV{B: x.B, Off: o + l, Len: tt.BVSub(hiT, tt.BV(64, uint64(l))), Cap: m - l}
+		}
+		return SliceV{B: x.B, Len: nLen, SOff: nOff, SCap: nCap}
 	case Ptr: // *array
 		if x.IsNil() {
 			w.runtimePanic("invalid memory address or nil pointer dereference")
